@@ -1,18 +1,26 @@
 /- Driver handler owned by property C12: `c12 <args…>` requests.
 
-   c12 check <hex of the structured LIR dump (hook verif_hooks::c12::lir_dump)>
-       → `ok items=<n> instrs=<n> sites=<n>`          every item accepted by `Lir.accept`
+   c12 check <hex of the structured LIR dump> <hex of the variant names> (hook verif_hooks::c12::lir_dump_kinds)
+       → `ok items=<n> instrs=<n> sites=<n> calls=<n> k.<Variant>=<n>…`   `Exec.acceptProg` holds for the program:
+                                                       every item accepted by `Lir.accept`, every call site passes
+                                                       call-local addresses to pointer-typed parameters
        → `reject <hex item name> <instr index|init> <instr text hex>`
+       → `reject-call <hex item name> <instr index> <instr text hex>`
        → `bad-dump <line number>`                      not in the dump grammar (never a default)
+       → `bad-kind <line number> <variant>`            variant unknown to the generated kind list, or the
+                                                       hook's opcode is not the shape the variant is classified as
+   c12 kinds → the generated variant names
    c12 admits <send 0|1> <sync 0|1> <bound words…>
        → `yes` / `no`: `Bounds.admits` on a bound list written as words
          (`send sync static clone partialEq other`)
 -/
 import Driver.Util
 import RotoV.Model.Conc
+import RotoV.Model.ConcExec
+import RotoV.Model.ConcInstr
 
 namespace Driver.C12
-open RotoV.Conc RotoV.Conc.Lir
+open RotoV.Conc RotoV.Conc.Lir RotoV.Conc.Classify RotoV.Gen.C12Instr
 
 def parseVar (s : String) : Option Nat :=
   if s.startsWith "v" then (s.drop 1).toNat? else none
@@ -40,29 +48,36 @@ def Decls.isPtr (d : Decls) (v : Nat) : Option Bool :=
 /-- hash of a hex name into a number (names only label regions) -/
 def nameId (s : String) : Nat := s.foldl (fun h c => (h * 131 + c.toNat) % 1000000007) 7
 
-def parseInstr (d : Decls) : List String → Option Instr
+/-- `names`: the items of the dump in order (a callee is referred to by its
+index; an unknown callee gets an index outside the program and is rejected by
+`okCallSite`). `kind`: the `lir::Instruction` variant the hook reports for this
+instruction. -/
+def parseInstr (d : Decls) (names : List String) (kind : Kind) : List String → Option Instr
   | ["jump"] => some .nop
   | ["switch", _] => some .nop
-  | ["ret", _] => some .nop
+  | ["ret", v] => do some (.ret (← parseOptOp v))
   | ["assign", to, val, _ty] => do some (.assign (← parseVar to) (← parseOp val))
   | ["constaddr", to, name] => do some (.constAddr (← parseVar to) (nameId name))
   | ["funcaddr", to, _] => do some (.funcAddr (← parseVar to))
   | ["initstring", to] => do some (.initString (← parseVar to))
-  | "call" :: _name :: to :: ctx :: ret :: args => do
+  | "call" :: name :: to :: ctx :: ret :: args => do
       let to ← parseOptVar to
       let isPtr ← match to with
         | none => some false
         | some v => d.isPtr v
-      some (.call to isPtr (← parseOptOp ctx) (← parseOptVar ret) (← parseOps args))
+      some (.call (names.idxOf name) to isPtr (← parseOptOp ctx) (← parseOptVar ret) (← parseOps args))
   | "callrt" :: _f :: args => do some (.callRt (← parseOps args))
-  | "arith" :: to :: _ => do
+  | "arith" :: to :: ops => do
       let v ← parseVar to
-      some (.arith v (← d.isPtr v))
+      match kind, ops with
+      | .kEq, [l, r] => some (.eq v (← parseOp l) (← parseOp r))
+      | .kEq, _ => none
+      | _, _ => some (.arith v (← d.isPtr v))
   | ["offset", to, src, n] => do some (.offset (← parseVar to) (← parseOp src) (← n.toNat?))
   | ["initialize", to, _] => do some (.initBytes (← parseVar to))
   | ["write", to, val] => do some (.write (← parseOp to) (← parseOp val))
   | ["read", to, src, ty] => do some (.read (← parseVar to) (ty == "Pointer") (← parseOp src))
-  | ["copy", to, src, _] => do some (.copy (← parseOp to) (← parseOp src))
+  | ["copy", to, src, n] => do some (.copy (← parseOp to) (← parseOp src) (← n.toNat?))
   | ["clone", to, src] => do some (.clone (← parseOp to) (← parseOp src))
   | ["drop", v, f] => do some (.drop (← parseOp v) (f == "1"))
   | _ => none
@@ -72,37 +87,38 @@ def isSite : Instr → Bool
   | .drop _ f => f
   | _ => false
 
+def isCall : Instr → Bool
+  | .call .. => true
+  | _ => false
+
+structure ItemAcc where
+  name : String
+  item : Item
+  texts : List String
+
 structure Acc where
   name : String := ""
   item : Item := { slots := [], ret := none, ctx := none, params := [], instrs := [] }
   decls : Decls := {}
   texts : List String := []   -- instruction texts, reversed
   inItem : Bool := false
-  items : Nat := 0
-  instrs : Nat := 0
-  sites : Nat := 0
+  done : List ItemAcc := []   -- finished items, reversed
+  kinds : List String := []   -- variant names not yet consumed
+  seen : List (Kind × Nat) := []
 
 def kv (s : String) (key : String) : Option String :=
   if s.startsWith (key ++ "=") then some (s.drop (key.length + 1)).toString else none
 
-def finishItem (a : Acc) : Except String Acc :=
+def bumpKind (seen : List (Kind × Nat)) (k : Kind) : List (Kind × Nat) :=
+  if seen.any (·.1 == k) then seen.map (fun p => if p.1 == k then (p.1, p.2 + 1) else p)
+  else (k, 1) :: seen
+
+def finishItem (a : Acc) : Acc :=
   let it := { a.item with instrs := a.item.instrs.reverse, slots := a.item.slots.reverse,
                           params := a.item.params.reverse }
-  let cert := infer it
-  if !okInit cert it then .error s!"reject {a.name} init -"
-  else match firstBad cert it.instrs with
-    | some idx =>
-      let txt := (a.texts.reverse.getD idx "?")
-      .error s!"reject {a.name} {idx} {String.join ((txt.toUTF8.toList).map fun b =>
-        let h := "0123456789abcdef".toList
-        String.ofList [h.getD (b.toNat / 16) '?', h.getD (b.toNat % 16) '?'])}"
-    | none =>
-      if accept it then
-        .ok { items := a.items + 1, instrs := a.instrs + it.instrs.length,
-              sites := a.sites + (it.instrs.filter isSite).length }
-      else .error s!"reject {a.name} ? -"
+  { a with inItem := false, done := { name := a.name, item := it, texts := a.texts.reverse } :: a.done }
 
-def stepLine (a : Acc) (ln : Nat) (line : String) : Except String Acc :=
+def stepLine (names : List String) (a : Acc) (ln : Nat) (line : String) : Except String Acc :=
   let bad : Except String Acc := .error s!"bad-dump {ln}"
   match Driver.words line with
   | [] => .ok a
@@ -137,23 +153,69 @@ def stepLine (a : Acc) (ln : Nat) (line : String) : Except String Acc :=
   | ["block"] => if a.inItem then .ok a else bad
   | "i" :: rest =>
     if !a.inItem then bad else
-    match parseInstr a.decls rest with
-    | some i => .ok { a with item := { a.item with instrs := i :: a.item.instrs },
-                             texts := " ".intercalate rest :: a.texts }
-    | none => bad
-  | ["end"] => if a.inItem then finishItem a else bad
+    match a.kinds with
+    | [] => .error s!"bad-kind {ln} -"
+    | kname :: kinds =>
+      match Kind.ofName? kname with
+      | none => .error s!"bad-kind {ln} {kname}"   -- a variant the generated list does not know
+      | some k =>
+        match parseInstr a.decls names k rest with
+        | some i =>
+          -- the hook's opcode and the classification of the variant must agree
+          if Shape.of i != shapeOf k then .error s!"bad-kind {ln} {kname}"
+          else .ok { a with item := { a.item with instrs := i :: a.item.instrs },
+                            texts := " ".intercalate rest :: a.texts, kinds := kinds,
+                            seen := bumpKind a.seen k }
+        | none => bad
+  | ["end"] => if a.inItem then .ok (finishItem a) else bad
   | _ => bad
 
-def checkDump (text : String) : String :=
+def hexOf (txt : String) : String :=
+  String.join ((txt.toUTF8.toList).map fun b =>
+    let h := "0123456789abcdef".toList
+    String.ofList [h.getD (b.toNat / 16) '?', h.getD (b.toNat % 16) '?'])
+
+/-- why `acceptProg` is false: the first offending item / instruction -/
+def diagnose (prog : List Item) : List ItemAcc → String
+  | [] => "reject - ? -"
+  | a :: rest =>
+    let cert := infer a.item
+    if !okInit cert a.item then s!"reject {a.name} init -"
+    else match firstBad cert a.item.instrs with
+      | some idx => s!"reject {a.name} {idx} {hexOf (a.texts.getD idx "?")}"
+      | none =>
+        match a.item.instrs.findIdx? (fun i => !Exec.okCallSite prog cert i) with
+        | some idx => s!"reject-call {a.name} {idx} {hexOf (a.texts.getD idx "?")}"
+        | none => diagnose prog rest
+
+def checkDump (text kindsText : String) : String :=
   let lines := text.splitOn "\n"
-  let rec go (ls : List String) (ln : Nat) (a : Acc) : String :=
+  let names := lines.filterMap (fun l =>
+    match Driver.words l with
+    | "item" :: name :: _ => some name
+    | _ => none)
+  let kinds := (kindsText.splitOn "\n").filter (fun l => l != "")
+  let rec go (ls : List String) (ln : Nat) (a : Acc) : Except String Acc :=
     match ls with
-    | [] => if a.inItem then s!"bad-dump {ln}" else s!"ok items={a.items} instrs={a.instrs} sites={a.sites}"
+    | [] => if a.inItem then .error s!"bad-dump {ln}" else .ok a
     | l :: rest =>
-      match stepLine a ln l with
+      match stepLine names a ln l with
       | .ok a' => go rest (ln + 1) a'
-      | .error e => e
-  go lines 1 {}
+      | .error e => .error e
+  match go lines 1 { kinds := kinds } with
+  | .error e => e
+  | .ok a =>
+    if !a.kinds.isEmpty then "bad-kind 0 -" else
+    let items := a.done.reverse
+    let prog := items.map (·.item)
+    -- exactly the hypothesis of `accepted_items_noninterfere`
+    if Exec.acceptProg prog then
+      let instrs := prog.foldl (fun n it => n + it.instrs.length) 0
+      let sites := prog.foldl (fun n it => n + (it.instrs.filter isSite).length) 0
+      let calls := prog.foldl (fun n it => n + (it.instrs.filter isCall).length) 0
+      let ks := " ".intercalate (a.seen.map (fun p => s!"k.{p.1.name}={p.2}"))
+      s!"ok items={prog.length} instrs={instrs} sites={sites} calls={calls} {ks}"
+    else diagnose prog items
 
 def parseBound : String → Option Bounds.Bound
   | "send" => some .send
@@ -166,10 +228,13 @@ def parseBound : String → Option Bounds.Bound
 
 def handle (args : List String) : String :=
   match args with
-  | ["check", hex] =>
-    match Driver.unhex hex with
-    | some bytes => checkDump (String.ofList (bytes.map fun b => Char.ofNat b.toNat))
-    | none => "bad-op"
+  | ["check", hex, khex] =>
+    match Driver.unhex hex, Driver.unhex khex with
+    | some bytes, some kbytes =>
+      checkDump (String.ofList (bytes.map fun b => Char.ofNat b.toNat))
+        (String.ofList (kbytes.map fun b => Char.ofNat b.toNat))
+    | _, _ => "bad-op"
+  | ["kinds"] => " ".intercalate (kinds.map (·.name))
   | "admits" :: send :: sync :: ws =>
     match ws.mapM parseBound with
     | some bs =>
